@@ -116,6 +116,9 @@ structure Gen where
   kind : AxisKind
   pdf : Rat → XR
   factors : Rat → List XR
+  /-- other intermediate values of the coded expression (operands of a quotient that forms one factor: `σ·√(2π)`,
+  `2·b·x`, `βᵅ`, `Γ(α)·Γ(β)`, …): each must stay a finite non-zero double for the factor to be what the model says -/
+  aux : Rat → List XR
   loc : Rat
   logk : Bool
 
@@ -124,18 +127,22 @@ def genOf (name : String) (args : List Rat) : R Gen := do
   let a1 := args.getD 1 0
   let need (k : Nat) : R Unit := if args.length == k then pure () else throw s!"{name}: {k} parameters expected"
   match name with
-  | "beta" => do need 2; pure ⟨fun n sc sh => beta specialQ n a0 a1 sc sh, .unit, betaPdf specialQ a0 a1, betaFactors specialQ a0 a1, 0, false⟩
-  | "exponential" => do need 1; pure ⟨fun n sc sh => exponential specialQ n a0 sc sh, .pos, exponentialPdf specialQ a0, exponentialFactors specialQ a0, 0, false⟩
-  | "inversegamma" => do need 2; pure ⟨fun n sc sh => inversegamma specialQ n a0 a1 sc sh, .pos, inversegammaPdf specialQ a0 a1, inversegammaFactors specialQ a0 a1, 0, false⟩
-  | "laplace" => do need 2; pure ⟨fun n sc sh => laplace specialQ n a0 a1 sc sh, .sym, laplacePdf specialQ a0 a1, laplaceFactors specialQ a0 a1, a1, false⟩
-  | "loglaplace" => do need 2; pure ⟨fun n sc sh => loglaplace specialQ n a0 a1 sc sh, .pos, loglaplacePdf specialQ a0 a1, loglaplaceFactors specialQ a0 a1, a1, true⟩
-  | "lognormal" => do need 2; pure ⟨fun n sc sh => lognormal specialQ n a0 a1 sc sh, .pos, lognormalPdf specialQ a0 a1, lognormalFactors specialQ a0 a1, a1, true⟩
-  | "normal" => do need 2; pure ⟨fun n sc sh => normal specialQ n a0 a1 sc sh, .sym, normalPdf specialQ a0 a1, normalFactors specialQ a0 a1, a1, false⟩
+  | "beta" => do need 2; pure ⟨fun n sc sh => beta specialQ n a0 a1 sc sh, .unit, betaPdf specialQ a0 a1, betaFactors specialQ a0 a1,
+      fun _ => [some (gammaApprox a0), some (gammaApprox a1), some (gammaApprox a0 * gammaApprox a1), some (gammaApprox (a0 + a1)),
+                some (gammaApprox a0 * gammaApprox a1 / gammaApprox (a0 + a1))], 0, false⟩
+  | "exponential" => do need 1; pure ⟨fun n sc sh => exponential specialQ n a0 sc sh, .pos, exponentialPdf specialQ a0, exponentialFactors specialQ a0, fun _ => [], 0, false⟩
+  | "inversegamma" => do need 2; pure ⟨fun n sc sh => inversegamma specialQ n a0 a1 sc sh, .pos, inversegammaPdf specialQ a0 a1, inversegammaFactors specialQ a0 a1,
+      fun _ => [specialQ.rpow (some a1) (some a0), some (gammaApprox a0)], 0, false⟩
+  | "laplace" => do need 2; pure ⟨fun n sc sh => laplace specialQ n a0 a1 sc sh, .sym, laplacePdf specialQ a0 a1, laplaceFactors specialQ a0 a1, fun _ => [some (2 * a0)], a1, false⟩
+  | "loglaplace" => do need 2; pure ⟨fun n sc sh => loglaplace specialQ n a0 a1 sc sh, .pos, loglaplacePdf specialQ a0 a1, loglaplaceFactors specialQ a0 a1, fun x => [some (2 * a0), some (2 * a0 * x)], a1, true⟩
+  | "lognormal" => do need 2; pure ⟨fun n sc sh => lognormal specialQ n a0 a1 sc sh, .pos, lognormalPdf specialQ a0 a1, lognormalFactors specialQ a0 a1, fun x => [some (x * a0), some (x * a0 * s2piQ)], a1, true⟩
+  | "normal" => do need 2; pure ⟨fun n sc sh => normal specialQ n a0 a1 sc sh, .sym, normalPdf specialQ a0 a1, normalFactors specialQ a0 a1, fun _ => [some (a0 * s2piQ)], a1, false⟩
   | "super_gaussian" => do
       need 3
       let p := args.getD 2 0
       if p.den != 1 || p < 0 then throw "super_gaussian: integer power expected"
-      pure ⟨fun n sc sh => superGaussian specialQ n a0 a1 p.num.toNat sc sh, .sym, superGaussianPdf specialQ a0 a1 p.num.toNat, superGaussianFactors specialQ a0 a1 p.num.toNat, a1, false⟩
+      pure ⟨fun n sc sh => superGaussian specialQ n a0 a1 p.num.toNat sc sh, .sym, superGaussianPdf specialQ a0 a1 p.num.toNat, superGaussianFactors specialQ a0 a1 p.num.toNat,
+            fun _ => [some (a0 * s2piQ)], a1, false⟩
   | _ => throw s!"unknown generator {name}"
 
 def allSome (l : List XR) : Option (List Rat) := l.mapM id
@@ -152,7 +159,8 @@ def tailDelta (g : Gen) (axis : List Rat) (x : Rat) : Rat :=
 implementation is looked at): `robust` = at the axis point of largest modelled density, and at that point moved
 by `± tailDelta`, every product of a sub-collection of the factors lies in `[64·2⁻¹⁰⁷⁴, 2¹⁰⁰⁰]`
 (`robustFactors`, `robustFactors_spec`); `overflow` = at some axis point a factor leaves the domain of its
-function or a sub-product exceeds `2¹⁰⁰⁰` (an `inf` may appear, and `inf · 0 = nan`). -/
+function, a sub-product exceeds `2¹⁰⁰⁰` (an `inf` may appear, and `inf · 0 = nan`) or an operand inside a factor
+(`aux`) leaves `[2⁻¹⁰⁰⁰, 2¹⁰⁰⁰]`. -/
 def tailDecision (g : Gen) (axis : List Rat) : Json :=
   let dens := axis.map g.pdf
   let best : Option (Rat × Rat) := (axis.zip dens).foldl
@@ -161,7 +169,10 @@ def tailDecision (g : Gen) (axis : List Rat) : Json :=
       | some v, none => some (x, v)
       | none, _ => acc) none
   let facs := axis.map (fun x => allSome (g.factors x))
-  let overflow := facs.any (fun f => match f with | none => true | some fs => overflowFactors fs)
+  let auxBad (x : Rat) : Bool := (g.aux x).any (fun v => match v with
+    | none => true
+    | some q => decide (tailHi < absR q) || decide (absR q < 1 / tailHi))
+  let overflow := facs.any (fun f => match f with | none => true | some fs => overflowFactors fs) || axis.any auxBad
   let robustAt (x : Rat) : Bool := match allSome (g.factors x) with
     | none => false
     | some fs => robustFactors fs
